@@ -66,6 +66,27 @@ impl ShimParseTokens for String {
     fn shim_parse_tokens(&self) -> (r: TokenStream) { self.parse().unwrap() }
 }
 
+// `text.parse::<TokenStream>()` without unwrap: Ok exactly when the text lexes, and then the same function of the text
+#[verifier::external_type_specification] #[verifier::external_body] pub struct ExLexError(proc_macro2::LexError);
+pub trait ShimTryParseTokens {
+    spec fn tview(&self) -> Seq<char>;
+    fn shim_try_parse_tokens(&self) -> (r: Result<TokenStream, proc_macro2::LexError>)
+        ensures (r is Ok) == lexes(self.tview()), r is Ok ==> ts_view(&r->Ok_0) == parse_toks(self.tview());
+}
+impl ShimTryParseTokens for str {
+    open spec fn tview(&self) -> Seq<char> { self@ }
+    #[verifier::external_body]
+    fn shim_try_parse_tokens(&self) -> (r: Result<TokenStream, proc_macro2::LexError>) { self.parse::<TokenStream>() }
+}
+// Clone of a token stream is the same tokens
+pub assume_specification[ <TokenStream as Clone>::clone ](t: &TokenStream) -> (r: TokenStream)
+    ensures ts_view(&r) == ts_view(t);
+// the canonical text of a token sequence as lib::token_text prints it: tokens separated by spaces, groups by their delimiters,
+// a comma that is the last token of a stream or group dropped.  Uninterpreted: all that matters is that it is a FUNCTION of the
+// tokens (equal texts <- equal token sequences modulo trailing commas is what the helper is for; that meaning is trusted and
+// conformance-tested by the witness search, which carries the same algorithm independently)
+pub uninterp spec fn canon_text(t: Seq<Tok>) -> Seq<char>;
+
 pub trait Interp {
     spec fn toks(&self) -> Seq<Tok>;
     fn interp(&self, s: &mut TokenStream)
